@@ -6,7 +6,9 @@
 package tym
 
 import (
+	"encoding/json"
 	"fmt"
+	"sort"
 	"strings"
 
 	"github.com/danos/mgmterror"
@@ -110,8 +112,14 @@ func errSubs(msg, tag string) string {
 	return s + " }"
 }
 
+type typedefStmt struct {
+	text  string
+	local bool
+}
+
 type renderer struct {
-	typedefs map[string][]string // module -> typedef statements
+	typedefs map[string][]typedefStmt // module -> typedef statements
+	memo     map[string]string        // (module, scope, built-in, levels so far) -> typedef name
 	n        int
 }
 
@@ -123,7 +131,7 @@ func ref(ctxMod, m, n string) string {
 }
 
 // typeStmt renders `type <name> { ... }` for one level, written in module ctxMod
-func (r *renderer) typeStmt(ctxMod, name string, l Level) string {
+func (r *renderer) typeStmt(ctxMod, name string, l Level, local bool) string {
 	var b strings.Builder
 	if l.Fd != 0 {
 		fmt.Fprintf(&b, " fraction-digits %d;", l.Fd)
@@ -144,7 +152,7 @@ func (r *renderer) typeStmt(ctxMod, name string, l Level) string {
 		b.WriteString(" base " + ref(ctxMod, l.IdBase.M, l.IdBase.N) + ";")
 	}
 	for _, m := range l.Members {
-		b.WriteString(" " + r.chainType(ctxMod, m, false))
+		b.WriteString(" " + r.chainType(ctxMod, m, false, local))
 	}
 	if b.Len() == 0 {
 		return "type " + name + ";"
@@ -162,42 +170,73 @@ func defStmt(l Level) string {
 // chainType emits the typedefs of all levels but the last and returns the type
 // statement of the last level, written in module ctxMod.  With xmod the
 // innermost typedef is written in module a and referenced through the prefix.
-func (r *renderer) chainType(ctxMod string, c Chain, xmod bool) string {
+// Chains of one module set that start with the same levels share those
+// typedefs (the same typedef refined by several leaves).
+func (r *renderer) chainType(ctxMod string, c Chain, xmod, local bool) string {
 	name := c.K
 	for i, l := range c.Levels {
 		if i == len(c.Levels)-1 {
-			return r.typeStmt(ctxMod, name, l)
+			return r.typeStmt(ctxMod, name, l, local)
 		}
-		tm := ctxMod
+		tm, tlocal := ctxMod, local
 		if xmod && i == 0 {
-			tm = "a"
+			tm, tlocal = "a", false
 		}
-		r.n++
-		td := fmt.Sprintf("t%d", r.n)
-		r.typedefs[tm] = append(r.typedefs[tm], fmt.Sprintf("typedef %s { %s%s }\n", td, r.typeStmt(tm, name, l), defStmt(l)))
+		prefix, _ := json.Marshal(c.Levels[:i+1])
+		key := fmt.Sprintf("%s|%v|%s|%s", tm, tlocal, c.K, prefix)
+		td, ok := r.memo[key]
+		if !ok {
+			r.n++
+			td = fmt.Sprintf("t%d", r.n)
+			r.memo[key] = td
+			r.typedefs[tm] = append(r.typedefs[tm], typedefStmt{
+				text:  fmt.Sprintf("typedef %s { %s%s }\n", td, r.typeStmt(tm, name, l, tlocal), defStmt(l)),
+				local: tlocal})
+		}
 		name = ref(ctxMod, tm, td)
 	}
 	return "type " + name + ";"
 }
 
-// Render gives the YANG modules of a chain: module name -> text.  The leaf is
-// /c/x in module c.Mod.
-func Render(c Chain) map[string]string {
+// ContainerOf is the container that holds the leaves of a module.
+func ContainerOf(mod string) string {
+	if mod == "b" {
+		return "d"
+	}
+	return "c"
+}
+
+// Render gives the YANG modules of a group of chains: module name -> text.
+// Chain i becomes leaf /c/x<i> (module a) or /d/x<i> (module b), in the order
+// given.
+func Render(cs []Chain) map[string]string {
 	mods := map[string]string{}
 	names := []string{"a"}
-	if len(c.Idents) > 0 || c.Mod == "b" {
+	var idents []Ident
+	needB := false
+	for _, c := range cs {
+		if len(c.Idents) > len(idents) {
+			idents = c.Idents
+		}
+		needB = needB || len(c.Idents) > 0 || c.Mod == "b"
+	}
+	if needB {
 		names = append(names, "b")
 	}
-	r := &renderer{typedefs: map[string][]string{}}
-	last := c.Levels[len(c.Levels)-1]
-	ts := r.chainType(c.Mod, c, c.Lay == "xmod" && c.Mod == "b")
+	r := &renderer{typedefs: map[string][]typedefStmt{}, memo: map[string]string{}}
+	leaves := map[string][]string{}
+	for i, c := range cs {
+		last := c.Levels[len(c.Levels)-1]
+		ts := r.chainType(c.Mod, c, c.Lay == "xmod" && c.Mod == "b", c.Lay == "local")
+		leaves[c.Mod] = append(leaves[c.Mod], fmt.Sprintf("    leaf x%d { %s%s }\n", i+1, ts, defStmt(last)))
+	}
 	for _, m := range names {
 		var b strings.Builder
 		fmt.Fprintf(&b, "module %s {\n  namespace \"urn:%s\";\n  prefix %s;\n", m, m, m)
 		if m == "b" {
 			b.WriteString("  import a { prefix a; }\n")
 		}
-		for _, id := range c.Idents {
+		for _, id := range idents {
 			if id.M != m {
 				continue
 			}
@@ -207,20 +246,22 @@ func Render(c Chain) map[string]string {
 				fmt.Fprintf(&b, "  identity %s { base %s; }\n", id.N, ref(m, id.Bm, id.Bn))
 			}
 		}
-		local := c.Lay == "local" && m == c.Mod
-		if !local {
-			for _, td := range r.typedefs[m] {
-				b.WriteString("  " + td)
+		for _, td := range r.typedefs[m] {
+			if !td.local {
+				b.WriteString("  " + td.text)
 			}
 		}
-		if m == c.Mod {
-			b.WriteString("  container c {\n")
-			if local {
-				for _, td := range r.typedefs[m] {
-					b.WriteString("    " + td)
+		if len(leaves[m]) > 0 {
+			fmt.Fprintf(&b, "  container %s {\n", ContainerOf(m))
+			for _, td := range r.typedefs[m] {
+				if td.local {
+					b.WriteString("    " + td.text)
 				}
 			}
-			fmt.Fprintf(&b, "    leaf x { %s%s }\n  }\n", ts, defStmt(last))
+			for _, l := range leaves[m] {
+				b.WriteString(l)
+			}
+			b.WriteString("  }\n")
 		}
 		b.WriteString("}\n")
 		mods[m] = b.String()
@@ -267,15 +308,23 @@ func ascii(s string) string {
 	return b.String()
 }
 
+// compileMods parses the modules with shared interners (as compile.ParseModules
+// does for a set of files) and compiles them together.
 func compileMods(mods map[string]string) (ms schema.ModelSet, err error, panicked string) {
 	defer func() {
 		if r := recover(); r != nil {
 			panicked = fmt.Sprint(r)
 		}
 	}()
+	names := []string{}
+	for n := range mods {
+		names = append(names, n)
+	}
+	sort.Strings(names)
+	si, ai := parse.NewStringInterner(), parse.NewArgInterner()
 	trees := map[string]*parse.Tree{}
-	for n, t := range mods {
-		pt, perr := parse.Parse(n+".yang", t, nil)
+	for _, n := range names {
+		pt, perr := parse.ParseWithInterners(n+".yang", mods[n], nil, si, ai)
 		if perr != nil {
 			return nil, perr, ""
 		}
@@ -294,67 +343,83 @@ func validate(t schema.Type, path []string, v string) (err error, panicked strin
 	return t.Validate(vctx{}, path, v), ""
 }
 
-// Observe compiles the chain and validates every lexeme against the leaf's type.
-func Observe(c Chain, lexemes []Cps, keepYang bool) Obs {
-	o := Obs{Def: Cps{}, Probes: []ProbeObs{}}
-	mods := Render(c)
+// Observe compiles the group of chains as one module set and validates, for
+// every chain, its lexemes against the type of its own leaf.
+func Observe(cs []Chain, lexemes [][]Cps, keepYang bool) []Obs {
+	out := make([]Obs, len(cs))
+	for i := range out {
+		out[i] = Obs{Def: Cps{}, Probes: []ProbeObs{}}
+	}
+	fail := func(cerr, pan string) []Obs {
+		for i := range out {
+			out[i].Cerr, out[i].Panic = cerr, pan
+		}
+		return out
+	}
+	mods := Render(cs)
 	if keepYang {
-		o.Yang = mods
+		for i := range out {
+			out[i].Yang = mods
+		}
 	}
 	ms, err, pan := compileMods(mods)
 	if pan != "" {
-		o.Panic = ascii(pan)
-		o.Cerr = "panic"
-		return o
+		return fail("panic", ascii(pan))
 	}
 	if err != nil {
-		o.Cerr = ascii(err.Error())
-		if len(o.Cerr) > 300 {
-			o.Cerr = o.Cerr[:300]
+		cerr := ascii(err.Error())
+		if len(cerr) > 300 {
+			cerr = cerr[:300]
 		}
-		return o
+		return fail(cerr, "")
 	}
-	cont := ms.Child("c")
-	if cont == nil || cont.Child("x") == nil {
-		o.Cerr = "leaf /c/x not found in the compiled schema"
-		return o
+	leaves := make([]schema.Leaf, len(cs))
+	for i, c := range cs {
+		cn, ln := ContainerOf(c.Mod), fmt.Sprintf("x%d", i+1)
+		cont := ms.Child(cn)
+		if cont == nil || cont.Child(ln) == nil {
+			return fail(fmt.Sprintf("leaf /%s/%s not found in the compiled schema", cn, ln), "")
+		}
+		leaf, ok := cont.Child(ln).(schema.Leaf)
+		if !ok {
+			return fail(fmt.Sprintf("/%s/%s is not a leaf", cn, ln), "")
+		}
+		leaves[i] = leaf
 	}
-	leaf, ok := cont.Child("x").(schema.Leaf)
-	if !ok {
-		o.Cerr = "/c/x is not a leaf"
-		return o
-	}
-	o.Compiled = true
-	d, has := leaf.Default()
-	o.HasDef, o.Def = has, ToCps(d)
-	_, o.TypeDef = leaf.Type().Default()
-	leafPath := []string{"c", "x"}
-	for _, lx := range lexemes {
-		v := lx.String()
-		vpath := []string{"c", "x", v}
-		verr, vp := validate(leaf.Type(), vpath, v)
-		p := ProbeObs{Ok: verr == nil && vp == "", Pc: "none"}
-		if vp != "" {
-			p.Err = "panic: " + ascii(vp)
-			p.Pc = "other"
-		} else if verr != nil {
-			p.Err = ascii(verr.Error())
-			if len(p.Err) > 200 {
-				p.Err = p.Err[:200]
-			}
-			p.Pc = "other"
-			if f, ok := verr.(mgmterror.Formattable); ok {
-				p.Msg, p.Tag = ascii(f.GetMessage()), ascii(f.GetAppTag())
-				switch f.GetPath() {
-				case pathutil.Pathstr(vpath):
-					p.Pc = "value"
-				case pathutil.Pathstr(leafPath):
-					p.Pc = "leaf"
+	for i, c := range cs {
+		o, leaf := &out[i], leaves[i]
+		o.Compiled = true
+		d, has := leaf.Default()
+		o.HasDef, o.Def = has, ToCps(d)
+		_, o.TypeDef = leaf.Type().Default()
+		leafPath := []string{ContainerOf(c.Mod), fmt.Sprintf("x%d", i+1)}
+		for _, lx := range lexemes[i] {
+			v := lx.String()
+			vpath := append(append([]string{}, leafPath...), v)
+			verr, vp := validate(leaf.Type(), vpath, v)
+			p := ProbeObs{Ok: verr == nil && vp == "", Pc: "none"}
+			if vp != "" {
+				p.Err = "panic: " + ascii(vp)
+				p.Pc = "other"
+			} else if verr != nil {
+				p.Err = ascii(verr.Error())
+				if len(p.Err) > 200 {
+					p.Err = p.Err[:200]
 				}
-				p.Path = ascii(f.GetPath())
+				p.Pc = "other"
+				if f, ok := verr.(mgmterror.Formattable); ok {
+					p.Msg, p.Tag = ascii(f.GetMessage()), ascii(f.GetAppTag())
+					switch f.GetPath() {
+					case pathutil.Pathstr(vpath):
+						p.Pc = "value"
+					case pathutil.Pathstr(leafPath):
+						p.Pc = "leaf"
+					}
+					p.Path = ascii(f.GetPath())
+				}
 			}
+			o.Probes = append(o.Probes, p)
 		}
-		o.Probes = append(o.Probes, p)
 	}
-	return o
+	return out
 }
